@@ -10,9 +10,9 @@ props = [json.loads(l)["id"] for l in open(os.path.join(HERE, "properties.jsonl"
 COMMON_TECH = ("; frame obligation `assigns.state` (attributes / class- and module-level containers written, from the effect log of the symbolic execution, against the frame derived from the pinned tree) "
                "decided together with a bounded native call-history design; the transcendental axioms the SMT encoding instantiates are exported from the encoder and proved in Lean 4 + Mathlib (./check axioms; lean re-run in the thorough tier)")
 EXTRA_TECH = {
-    "C01": "; class- / module-level state of RegionGeom.__init__ + throw (effect log) with a configuration-scan history as native witness",
+    "C01": "; bounded channel / re-throw history on the real geometry object (shared with C03); class- / module-level state of RegionGeom.__init__ + throw (effect log) with a configuration-scan history as native witness",
     "C03": "; bounded re-throw history on one geometry object",
-    "C04": "; the sampler's buffered-iterator loop is proved for a batch in one chunk AND for a batch spanning two chunks (nditer by assumed contract: consecutive aligned views), one fresh random number per event over all chunks",
+    "C04": "; the sampler's buffered-iterator loop is proved for a batch in one chunk AND for a batch spanning two chunks (nditer by assumed contract: consecutive aligned views), one fresh random number per event over all chunks; interpn and RegularGridInterpolator under one assumed contract; pattern obligations of the sampler need a native failing input",
     "C05": "; bounded element-type design (int64 / float32 energies, float32 angles)",
     "C06": "; bounded entry-point design with three events whose sorting permutation is a rotation",
     "C07": "; internal-generator path: postcondition `exists w in {d, 1 - d}` for the generator's draw d (uniform-preserving reflection); effect obligation on compute() (stage contracts): no column is narrowed (np.asarray(dtype=float32) is a recorded effect) between stage and results table",
@@ -23,7 +23,7 @@ EXTRA_TECH = {
     "C14": "; bounded: the same configuration and seed repeated in one process gives the same table bit for bit",
     "C15": "; reader decodes the file as UTF-8 independently of the locale (effective options of open; child-interpreter witness); --pressuremapcloud month spellings of both commands by exhaustive evaluation of the real click option types; f-string text `<number> <unit>` given a meaning by the contract (serializer / validator pairing); a valid configuration that cannot be written and read back is a failed round trip",
     "C16": "; contract of the command line callback apps/run.py:run (symbolic execution with stub collaborators): the final write happens for tables with and without rows; native witness through click's test runner",
-    "C17": "; contract of the command line callback apps/run.py:run: compute() receives the output name and the --write-stages flag whenever a file is wanted; ghost file system keyed by the caller's path, path objects included; a run onto the file of an earlier run must complete (bounded)",
+    "C17": "; contract of the command line callback apps/run.py:run: compute() receives the output name and the --write-stages flag whenever a file is wanted; ghost file system (answers glob patterns) keyed by the caller's path, path objects included; a run onto the file of an earlier run must complete (bounded)",
     "C18": "; one HDF5 file holding several grids: writer / writer / reader on h5py stubs with the library's open modes; slice obligations for grids whose axes share one array object; array tokens survive content-preserving conversions; library stubs with the real signatures",
     "C19": "; bounded memory-layout design (Fortran-ordered, transposed, strided, 3-d)",
     "C20": "; call-site obligation on compute(): calculate_snr receives the run's detector altitude, antenna count and gain (native witness: pass-through wrapper on the real call); energy linearity replayed natively at the solver's energy and on a ladder 1e-6..1e8",
